@@ -59,6 +59,10 @@ def main():
     finally:
         subprocess.run(["git", "-C", "/repo", "worktree", "remove", "--force", src], capture_output=True)
         shutil.rmtree(scratch, ignore_errors=True)
+        # leave lean/HvsrVerif/Generated as /repo itself generates it (a commit made right after a self-test must not carry files generated from a mutated tree)
+        env0 = {k: v for k, v in os.environ.items() if k not in ("HVSRPY_SRC", "VERIF_OUT")}
+        subprocess.run(["/venv/bin/python", "-c", "import sys; sys.path.insert(0, 'harness'); import common; common.regenerate_tables()"], cwd=VERIF, env=env0,
+                       capture_output=True)
 
 
 if __name__ == "__main__":
